@@ -61,6 +61,20 @@ def run_case(args):
                 fails.append(("printed", [dec(x) for x in o["printed"]]))
             if c["consistent"] and o["printed"] != c["lines"]:
                 fails.append(("print_identity", [dec(x) for x in o["printed"]]))
+            # the same lines handed over as ONE-SHOT iterators of Features that are not generator objects: nothing is lost to the dialect peek
+            if len(c["lines"]) >= 2 and k % 3 == 0:
+                from gffutils.feature import feature_from_line
+                for form in ("iter", "map"):
+                    objs = [feature_from_line(dec(l), keep_order=True) for l in c["lines"]]
+                    src = iter(objs) if form == "iter" else map(lambda x: x, objs)
+                    try:
+                        dbi = gffutils.create_db(src, ":memory:", checklines=c["cl"], merge_strategy="create_unique", keep_order=True)
+                    except Exception as e:  # noqa
+                        fails.append(("stored_once_oneshot_%s_raised:%s" % (form, type(e).__name__), None))
+                        continue
+                    got = [enc(str(f)) for f in dbi.all_features()]
+                    if len(got) != len(o["printed"]):
+                        fails.append(("stored_once_oneshot_" + form, [dec(x) for x in got]))
             # sort_attribute_values
             db.sort_attribute_values = True
             ps = [enc(str(f)) for f in db.all_features()]
@@ -90,6 +104,44 @@ def run_case(args):
             if os.path.exists(p):
                 os.unlink(p)
     return fails
+
+
+def run_scaled(c, reps, path):
+    """a consistent block repeated `reps` times (later copies get keys '<id>_n' under create_unique): thousands of lines, each stored exactly once,
+    in input order, columns and attributes as the model says for the block, printed byte-identical, the same after close / reopen"""
+    import gffutils
+    lines = [dec(l) for l in c["lines"]] * reps
+    dbfn = path + ".db"
+    try:
+        with open(path, "w", encoding="utf-8") as f:
+            f.write("\n".join(lines) + "\n")
+        with dbio.quiet(), warnings.catch_warnings():
+            warnings.simplefilter("ignore")
+            db = gffutils.create_db(path, dbfn, checklines=c["cl"], merge_strategy="create_unique", keep_order=True, force=True)
+            db.conn.close()
+            db = gffutils.FeatureDB(dbfn, keep_order=True)
+            feats = list(db.all_features())
+        if len(feats) != len(lines):
+            return "scaled:stored_once", {"stored": len(feats), "lines": len(lines)}
+        block = c["feats"]
+        for n, f in enumerate(feats):
+            want = block[n % len(block)]
+            got = proj(f)
+            for fld in ("seqid", "source", "ftype", "start", "end", "score", "strand", "frame", "attrs", "extra"):
+                if got[fld] != want[fld]:
+                    return "scaled:stored_" + fld, {"line_number": n + 1, "line": lines[n], "observed": got[fld]}
+            if str(f) != lines[n]:
+                return "scaled:print_identity", {"line_number": n + 1, "line": lines[n], "printed": str(f)}
+        if len(set(f.id for f in feats)) != len(feats):
+            return "scaled:keys_unique", None
+        db.conn.close()
+        return None, None
+    except Exception as e:  # noqa
+        return "scaled:raised:" + type(e).__name__, {"message": str(e)[:200]}
+    finally:
+        for p in (path, dbfn):
+            if os.path.exists(p):
+                os.unlink(p)
 
 
 def random_files(rng, n):
@@ -205,6 +257,16 @@ def run(ctx):
     g = [out[k + 1] for k in range(len(files))]
     judge(g, "beyond:", 10 ** 6)
     ctx.extra["consistent_cases_d2"] = sum(1 for c in g if c["consistent"])
+    # D4: scale - consistent blocks repeated to thousands of lines
+    blocks = [c for c in g if c["consistent"] and c["st"] == "ok" and len(c["lines"]) >= 3]
+    for k, c in enumerate(ctx.rng.sample(blocks, min(len(blocks), 6 if thorough else 2))):
+        reps = (6000 if thorough else 2500) // len(c["lines"]) + 1
+        bad, detail = run_scaled(c, reps, ctx.path("c01_scaled_%d.gff" % k))
+        if bad:
+            ctx.violation({"lines": [dec(l) for l in c["lines"]], "cl": c["cl"], "consistent": True, "scaled_reps": reps}, bad, detail)
+        ctx.count(("scaled", c["lines"], reps), True)
+        ctx.traces += 1
+        ctx.extra["scaled_file_lines"] = reps * len(c["lines"])
     ctx.extra["data_files"] = names
     ctx.assumptions += ["directives, comments and FASTA sections are C14's subject; files here consist of feature lines",
                         "coordinates are '.' or canonical decimals below 2**31",
@@ -214,7 +276,7 @@ def run(ctx):
 def replay(ctx, rec):
     c = rec["case"]
     if "lines" not in c:
-        return True
+        raise core.CannotReplay("no executable case in this replay file")
     files = [{"generated": False, "d": {}, "rows": [], "cl": c["cl"], "lines": [enc(l) for l in c["lines"]]}]
     p = ctx.path("files.json")
     with open(p, "w") as f:
@@ -222,4 +284,6 @@ def replay(ctx, rec):
     gen = ctx.tlc("Gen_Import", GEN_CFG, env={"SEED_FILE": p}, workers=1)
     j = gen.json[0]
     j["consistent"] = c.get("consistent", False)
+    if c.get("scaled_reps"):
+        return run_scaled(j, c["scaled_reps"], ctx.path("c01_scaled_replay.gff"))[0] is not None
     return bool(run_case((j, ctx.scratch, 0, True)))
